@@ -71,6 +71,17 @@ def render_toks(toks, first_ws=False):
 
 
 def render_line(l):
+    """optional layout fields: "pre" (text before `#`), "sp" (between `#` and the directive name),
+    "trail" (appended to the line: white space / comment); kind "blank": a line without tokens ("raw")"""
+    if l["k"] == "blank":
+        return l.get("raw", "")
+    r = _render_line(l) + l.get("trail", "")
+    if l["k"] != "text" and (l.get("pre") or l.get("sp")):
+        r = l.get("pre", "") + "#" + l.get("sp", "") + r[1:]
+    return r
+
+
+def _render_line(l):
     k = l["k"]
     if k == "define":
         h = "#define " + l["name"]
@@ -126,7 +137,8 @@ def glued_match(spec, text_toks):
     """`gcc -E` prints an identifier and a following pp-number that is not identifier-like (`tx` `1.`)
     without a separating space when they come from different macro expansions, so the re-tokenised text
     shifts a token boundary (`tx1` `.`).  Accept the reference iff every place where the two token
-    sequences differ is exactly of that kind: the spec has [identifier, pp-number] where the text has
+    sequences differ is exactly of that kind: the spec has [identifier, pp-number] (or [identifier,
+    literal with an encoding prefix]) where the text has
     the same characters split differently."""
     if toks_match(spec, text_toks):
         return True
@@ -135,7 +147,13 @@ def glued_match(spec, text_toks):
         if tok_match(spec[i], text_toks[j]):
             i += 1; j += 1
             continue
-        if i + 1 >= len(spec) or tok_kind(spec[i]) != "id" or tok_kind(spec[i + 1]) != "num":
+        if i + 1 >= len(spec):
+            return False
+        k1, k2 = tok_kind(spec[i]), tok_kind(spec[i + 1])
+        # (gcc does not separate an identifier or pp-number from a following prefixed literal either:
+        #  `xF` `L"w"` -> `xFL"w"`, `0x1F` `L"w"` -> `0x1FL "w"`)
+        if not ((k1 == "id" and k2 == "num")
+                or (k1 in ("id", "num") and k2 in ("str", "chr") and spec[i + 1][0] in "uUL")):
             return False
         want = spec[i] + spec[i + 1]
         acc, jj = "", j
@@ -152,6 +170,8 @@ def proto_case(cid, lines):
     out = [f"CASE {cid}"]
     for l in lines:
         k = l["k"]
+        if k == "blank":
+            continue
         if k == "define":
             if l["params"] is None:
                 out.append(f"DEFOBJ {l['name']} {proto_toks(l['repl'])}".rstrip())
@@ -175,10 +195,11 @@ def proto_case(cid, lines):
 # ------------------------------------------------------------------ macro-set generator
 OBJ_NAMES = ["P", "Q", "PQ", "R", "E0"]
 FUN_NAMES = ["F", "G", "FG", "H", "V", "S", "C2"]
-PLAIN = ["x", "y", "n", "x1", "t"]
+# ordinary names + names that begin like a string/character-literal prefix (u8 u U L)
+PLAIN = ["x", "y", "n", "x1", "t", "u8", "u8x", "u8_t", "u", "L1", "Ux", "u_", "U8"]
 NUMS = ["1", "2", "0", "7u", "0x1F"]
 PUNCTS = ["+", "-", "*", "<", ">", "=", "!", "&", "|", ".", "[", "]"]
-SAFE_STRS = ['"s"', "'c'", '"a b"', '"%d"']
+SAFE_STRS = ['"s"', "'c'", '"a b"', '"%d"', 'L"w"', "u'c'", 'u8"s"', "L'c'", 'U"s"']
 ESC_STRS = ['"s"', '"a\\n"', '"q\\"r"', "'c'", "'\\\\'", '"\\\\"', "'\\''", '"a b"']
 PUNCT_PASTES = [("+", "+"), ("-", ">"), ("<", "<"), ("<<", "="), ("&", "&"), ("|", "="), ("-", "-"),
                 (">", ">"), ("!", "="), (".", "5"), ("1", "."), ("%:", "%:")]
@@ -716,6 +737,83 @@ class CondGen:
             lines += self.section(1)
         lines.append({"k": "text", "toks": [("end", 0), (";", 0)]})
         return lines
+
+
+# ------------------------------------------------------------------ line ends x directives (small scope, enumerated)
+def line_end_cases(full):
+    """every kind of line end (function-like macro name without a call -- directly, as the end of an
+    object-like or function-like macro's replacement, as a macro argument --, a call that ends the line or
+    spans lines, results of #, with trailing white space / comments) immediately followed by every kind of
+    directive, with blank / comment lines in between, differently laid-out `#` lines, directly after the
+    definitions (start of the text), after other text, inside an active #if group, inside an #else group and
+    with the directive as the last line of the file.  The text after the directive shows whether it was
+    processed.  quick: E x D x I with position and layout cycling; thorough: E x D x I x P."""
+    def T(*sps, trail=""):
+        l = {"k": "text", "toks": fix_ws([(sp, 1 if i else 0) for i, sp in enumerate(sps)])}
+        if trail:
+            l["trail"] = trail
+        return [l]
+
+    def D(nm, repl, params=None):
+        return {"k": "define", "name": nm, "params": params, "variadic": False,
+                "repl": fix_ws([(sp, 1 if i else 0) for i, sp in enumerate(repl)])}
+    prelude = [D("f", ["<", "a", "|", "b", ">"], ["a", "b"]), D("OBJ", ["y", "f"]), D("W", ["a", "f"], ["a"]),
+               D("S", ["#", "a"], ["a"]), D("ID", ["a"], ["a"])]
+    ends = [T("x", "f"), T("OBJ"), T("W", "(", "1", ")"),
+            [{"k": "text", "toks": [("f", 0), ("(", 0), ("1", 0), (",", 0), ("\n", 0), ("2", 1), (")", 0)]}],
+            T("f", "(", "1", ",", "2", ")"), T("S", "(", "q", ")"), T("S", "(", "f", ")"), T("ID", "(", "f", ")"),
+            [{"k": "text", "toks": [("ID", 0), ("(", 0), ("f", 1), (")", 1)]}], T("x", "y"), T("f"),
+            T("ID", "(", "OBJ", ")"), T("f", "f"), T("x", "f") + T("f")]
+    for tr in (" ", " /* c */", " // c"):
+        ends += [T("x", "f", trail=tr), T("OBJ", trail=tr), T("f", trail=tr)]
+    IF1 = {"k": "if", "toks": [("1", 0)]}
+    IF0 = {"k": "if", "toks": [("0", 0)]}
+    ELIF1 = {"k": "elif", "toks": [("1", 0)]}
+    # (lines before the line end, directive lines, text after)
+    dirs = [
+        ([], [D("N", ["1"])], T("N", "z", ";")),
+        ([], [D("G", ["[", "a", "]"], ["a"])], T("G", "(", "2", ")", "z", ";")),
+        ([], [{"k": "undef", "name": "f"}], T("z", "f", "(", "3", ",", "4", ")", ";")),
+        ([], [{"k": "undef", "name": "OBJ"}], T("z", "OBJ", ";")),
+        ([], [dict(IF1)] + T("t1", ";") + [{"k": "endif"}], T("z", ";")),
+        ([], [dict(IF0)] + T("t1", ";") + [{"k": "else"}] + T("t2", ";") + [{"k": "endif"}], T("z", ";")),
+        ([], [{"k": "ifdef", "name": "f"}] + T("t1", ";") + [{"k": "else"}] + T("t2", ";") + [{"k": "endif"}], T("z", ";")),
+        ([], [{"k": "ifndef", "name": "f"}] + T("t1", ";") + [{"k": "endif"}], T("z", ";")),
+        ([dict(IF1)], [dict(ELIF1)] + T("bad", ";") + [{"k": "else"}] + T("bad2", ";") + [{"k": "endif"}], T("z", ";")),
+        ([dict(IF1)], [{"k": "else"}] + T("bad", ";") + [{"k": "endif"}], T("z", ";")),
+        ([dict(IF1)], [{"k": "endif"}], T("z", ";")),
+        ([dict(IF0)] + T("skip", ";") + [dict(ELIF1)], [{"k": "endif"}], T("z", ";")),
+        ([], [{"k": "undef", "name": "f"}, D("f", ["{", "a", "}"], ["a"])], T("z", "f", "(", "5", ")", ";")),
+    ]
+    between = [[], [{"k": "blank", "raw": ""}], [{"k": "blank", "raw": "   "}], [{"k": "blank", "raw": "/* c */"}],
+               [{"k": "blank", "raw": "// c"}], [{"k": "blank", "raw": "/* a"}, {"k": "blank", "raw": "   b */"}]]
+    layouts = [("", ""), ("  ", " "), ("/* c */ ", ""), ("\t", "\t")]
+    NP = 5
+    out = []
+    n = 0
+    for e in ends:
+        for before, dl, after in dirs:
+            for btw in between:
+                for pos in (range(NP) if full else [n % NP]):
+                    n += 1
+                    pre, sp = layouts[n % len(layouts)]
+                    dl2 = [dict(x) for x in dl]
+                    if pre or sp:
+                        dl2[0]["pre"], dl2[0]["sp"] = pre, sp
+                    core = [dict(x) for x in before] + [dict(x) for x in e] + [dict(x) for x in btw] + dl2
+                    tail = [dict(x) for x in after]
+                    if pos == 0:
+                        lines = core + tail
+                    elif pos == 1:
+                        lines = T("a0", ";") + core + tail
+                    elif pos == 2:
+                        lines = [dict(IF1)] + core + tail + [{"k": "endif"}]
+                    elif pos == 3:
+                        lines = [dict(IF0)] + T("skip0", ";") + [{"k": "else"}] + core + tail + [{"k": "endif"}]
+                    else:
+                        lines = T("a0", ";") + core          # the directive ends the file
+                    out.append([dict(x) for x in prelude] + lines)
+    return out
 
 
 # ------------------------------------------------------------------ C text -> case (corpus entries, replays)
